@@ -8,6 +8,7 @@ use serde_json::{json, Value};
 pub mod c01;
 pub mod c03;
 pub mod c07;
+pub mod c08;
 pub mod c09;
 pub mod c10;
 pub mod c13;
@@ -19,7 +20,7 @@ pub mod c18;
 pub mod hist_props;
 
 pub fn all_ids() -> Vec<&'static str> {
-    vec!["C01", "C02", "C03", "C04", "C05", "C06", "C07", "C09", "C10", "C11", "C12", "C13", "C14", "C15", "C17", "C18"]
+    vec!["C01", "C02", "C03", "C04", "C05", "C06", "C07", "C08", "C09", "C10", "C11", "C12", "C13", "C14", "C15", "C16", "C17", "C18"]
 }
 
 pub fn get(id: &str) -> Option<Box<dyn Prop>> {
@@ -31,6 +32,7 @@ pub fn get(id: &str) -> Option<Box<dyn Prop>> {
         "C05" => Some(Box::new(hist_props::c05())),
         "C06" => Some(Box::new(hist_props::C06)),
         "C07" => Some(Box::new(c07::C07)),
+        "C08" => Some(Box::new(c08::C08)),
         "C09" => Some(Box::new(c09::C09)),
         "C10" => Some(Box::new(c10::C10)),
         "C12" => Some(Box::new(c12::C12)),
@@ -38,6 +40,7 @@ pub fn get(id: &str) -> Option<Box<dyn Prop>> {
         "C11" => Some(Box::new(c11::C11)),
         "C14" => Some(Box::new(hist_props::c14())),
         "C15" => Some(Box::new(c15::C15)),
+        "C16" => Some(Box::new(c16::C16)),
         "C18" => Some(Box::new(c18::C18)),
         "C17" => Some(Box::new(hist_props::c17())),
         _ => None,
